@@ -1171,6 +1171,17 @@ func (in *Interp) instrs(st *State, b, pred *ssa.BasicBlock, idx int, k kont) {
 			// make([]T, 0, n): an empty slice whose contents are then fully determined by the appends
 			if n, ok := asInt(in.val(st, ins.Len)); ok && n == 0 {
 				in.set(st, ins, SliceV{})
+			} else if ok && n > 0 && n <= 256 {
+				// make([]T, n): a backing array of n zero elements, updated in place by element stores
+				var et types.Type
+				if sl, isSl := ins.Type().Underlying().(*types.Slice); isSl {
+					et = sl.Elem()
+				}
+				elems := make([]AV, n)
+				for i := range elems {
+					elems[i] = Zero{et}
+				}
+				in.set(st, ins, st.alloc(&Obj{T: ins.Type(), Kind: 'a', Elems: elems, Site: "makeslice"}))
 			} else {
 				in.set(st, ins, NonNil{"makeslice"})
 			}
